@@ -134,8 +134,10 @@ LawUpdWeight(p, pre, post, tags, cons, w) ==
   Fresh(p, pre, post, tags, cons) = {} => Close(w, post.score - pre.score)
 LawUpdDiscard(p, pre, post, tags, cons, disc) ==
   /\ \A a \in DOMAIN cons \cap DOMAIN pre.choices \cap DOMAIN post.choices : a \in DOMAIN disc   \* overwritten => recorded
-  /\ \A a \in DOMAIN disc : /\ a \in DOMAIN pre.choices /\ disc[a] = pre.choices[a]              \* holds the previous values
-                            /\ (a \in DOMAIN cons \/ a \notin DOMAIN post.choices \/ UnderAny(a, Rs(p, post, tags, cons)))
+  /\ \A a \in DOMAIN disc :
+        \/ /\ a \in DOMAIN pre.choices /\ disc[a] = pre.choices[a]                                \* holds the previous values
+           /\ (a \in DOMAIN cons \/ a \notin DOMAIN post.choices \/ UnderAny(a, Rs(p, post, tags, cons)))
+        \/ (a \notin DOMAIN pre.choices /\ a \in DOMAIN post.choices)   \* newly revealed address (mask False->True): its previous value was not observable
 
 \* C06: the backward request restores
 LawUndoRestore(pre, undo) == undo.choices = pre.choices /\ Close(undo.score, pre.score) /\ undo.ret = pre.ret /\ undo.args = pre.args
@@ -147,6 +149,11 @@ LawRegenUnselected(pre, post, sel) ==
 LawRegenWeight(pre, post, w) == Close(w, post.score - pre.score)
 LawRegenEmpty(pre, post, sel, w, argsSame) ==
   (argsSame /\ \A a \in DOMAIN pre.choices : ~Selected(sel, a)) => (post = pre /\ Close(w, 0))
+
+\* C22: programs of the static language proper (callees are distributions or static functions)
+RECURSIVE PureStatic(_)
+PureStatic(p) == \/ p.k \in {"dist", "cat"}
+                 \/ p.k = "static" /\ \A j \in 1..Len(p.sites) : PureStatic(p.sites[j].callee)
 
 \* C10: project
 LawProject(p, T, sel, w) == Close(w, ProjWt(ExecT(p, T), sel))
